@@ -5,6 +5,7 @@
   (HapModel/Gen/Routes.lean).
 -/
 import Proofs.Dispatch
+import Proofs.DispatchPool
 import HapModel.Gen.Routes
 namespace Hap.Http
 
@@ -83,6 +84,44 @@ theorem C03_only_setter (P : Params σ) (w : World σ) (req : Option Req) (body 
   obtain ⟨r, ctx, hres, hs, _⟩ := dispatch_verified_change Gen.routes P w req body h
   exact ⟨r, ctx, hres, C03_only_setter_table.2 r (resolve_mem hres) hs⟩
 
+/-- In the one function that raises the flag (`_pair_verify_two`) the assignment is the last
+    fallible step: a top-level statement with nothing after it that can raise. So an exception
+    anywhere in the M3 handler (saving the state, building M4, handing over the session key) leaves
+    the flag false: "privileged" and "pair-verify completed" are atomic with respect to exceptions,
+    which is what the model's `runHandler` assumes when it takes the flag from the body's result.
+    (Also exercised by the harness: faults injected into the M3 handler, then a plaintext sweep.) -/
+theorem C03_setter_atomic_table : ∀ x ∈ Gen.verifiedSetterLast, x.2 = true := by decide
+
+/-! ### several connections on one accessory -/
+
+/-- Frame property: a request on ANOTHER connection (pairing administration and the session
+    teardown it triggers included) never raises this connection's flag — at most it clears it. -/
+theorem C03_frame (routes : List Route) (P : Params σ) (lower : σ → Nat → Bool) (p : Pool σ)
+    (i j : Nat) (req : Option Req) (body : Bytes) (hij : j ≠ i)
+    (h : (stepConn routes P lower p i req body).1.verified j = true) : p.verified j = true :=
+  stepConn_frame routes P lower p i j req body hij h
+
+/-- Non-interference inside a pool: a non-exempt request on an unverified connection leaves the
+    whole pool — shared state, its own fields, every other connection's fields — unchanged and is
+    refused. -/
+theorem C03_pool_noninterference (routes : List Route) (ht : TableGuarded routes) (P : Params σ)
+    (lower : σ → Nat → Bool) (p : Pool σ) (i : Nat) (req : Option Req) (body : Bytes)
+    (hv : p.verified i = false) (hx : hitsExempt routes P (req, body) = false) :
+    (stepConn routes P lower p i req body).1 = p ∧
+    (stepConn routes P lower p i req body).2.refusal = true :=
+  stepConn_unverified routes ht P lower p i req body hv hx
+
+/-- Cross-connection histories: for every interleaving of requests of any number of connections —
+    whatever the others do, verified admins adding / removing / listing pairings included — a
+    connection that starts unverified and itself sends only non-exempt requests is unverified at
+    the end and every one of its requests was refused. -/
+theorem C03_pool_history (routes : List Route) (ht : TableGuarded routes) (P : Params σ)
+    (lower : σ → Nat → Bool) (j : Nat) (steps : List (Nat × Option Req × Bytes)) (p : Pool σ)
+    (hv : p.verified j = false) (hs : ∀ s ∈ steps, s.1 = j → hitsExempt routes P s.2 = false) :
+    (runPool routes P lower p steps).1.verified j = false ∧
+    ∀ x ∈ (runPool routes P lower p steps).2, x.1 = j → x.2.refusal = true :=
+  runPool_stays_unverified routes ht P lower j steps p hv hs
+
 /-! ### the table before the repair: `POST /resource` had no guard -/
 
 /-- `handle_resource` as shipped: no privilege test. -/
@@ -132,5 +171,13 @@ example : StaysUnverified Gen.routes snapshotBody { st := 0, verified := false, 
     [(resourceReq, []), (some { method := asc "POST", target := asc "/pair-verify", headers := [] }, []),
      (resourceReq, [])] := by
   simp only [StaysUnverified]; decide
+
+/-- a pool history: connection 1 (verified admin) removes a pairing between two requests of the
+    unverified connection 0 -/
+example :
+    let p : Pool Nat := { st := 0, verified := fun j => j == 1, uuid := fun j => if j == 1 then some 1 else none }
+    ((runPool Gen.routes snapshotBody (fun _ _ => true) p
+        [(0, resourceReq, []), (1, some { method := asc "POST", target := asc "/pairings", headers := [] }, []),
+         (0, resourceReq, [])]).1.verified 0) = false := by decide
 
 end Hap.Http
